@@ -14,6 +14,9 @@ int main(int argc, char** argv) {
         Rng r(M.seed, c, 501);
         Spec s; s.kind = K_WAKE;
         s.n = (uint32_t)r.range(24, 96); s.nb = (uint32_t)r.range(1, 2); s.it = 1 + (int)(c % 4);
+        // one case in sixteen at scale: kick tables of more than 2048 rows (n * nb), from many bunches or from a fine mesh
+        const bool scale = ((c / 4) % 16 == 9);
+        if (scale) { static const uint32_t SN[] = {64, 48, 300, 1030, 2100}, SB[] = {40, 48, 8, 3, 1}; const int k = (int)((c / 64) % 5); s.n = SN[k]; s.nb = SB[k]; M.ev("cases_with_kick_tables_beyond_2048_rows"); }
         uint32_t nbuckets = s.nb;
         s.buckets.clear(); for (uint32_t k = 0; k < nbuckets; k++) s.buckets.push_back(nbuckets - 1 - k);
         s.spacing = (nbuckets > 1) ? s.n + (uint32_t)r.range(0, s.n) : 0;
@@ -39,6 +42,7 @@ int main(int argc, char** argv) {
         // per-step relative change of the distribution: from far below single precision resolution of the kick to large
         double rate = std::pow(10.0, r.uni(-9, -2));
         int nsteps = (int)r.range(20, M.thorough() ? 300 : 80);
+        if (scale) nsteps = (int)r.range(4, 8);
         std::vector<double> cx(s.nb), cy(s.nb), sg(s.nb), am(s.nb);
         for (uint32_t bb = 0; bb < s.nb; bb++) { cx[bb] = r.uni(0.4, 0.6) * s.n; cy[bb] = r.uni(0.4, 0.6) * s.n; sg[bb] = r.uni(2, s.n / 8.0 + 2); am[bb] = r.uni(0.5, 2); }
         bool bad = false;
